@@ -23,9 +23,9 @@ from .common import Consumer, guarded
 
 LEVEL = 'model_checking'
 
-OPTIONAL = ["in", "inl", "g", "sib", "sec", "lnkf", "lnkd", "back", "lnkx"]
+OPTIONAL = ["in", "inl", "g", "sib", "sec", "lnkf", "lnkd", "back", "lnkx", "lnkl"]
 COMPS_ALL = ["in", "in.tex", "g", "sub", "deep", "..", ".", "dir", "dir2", "sib", "out", "secret",
-             "secret.tex", "lnkf", "lnkd", "back", "lnk", "lnk.tex", "dlink"]
+             "secret.tex", "lnkf", "lnkd", "back", "lnk", "lnk.tex", "dlink", "lnk2", "lnk2.latex"]
 
 MC = """---- MODULE MC_InputFile ----
 EXTENDS InputFile
@@ -66,6 +66,7 @@ LINKS = {
     'lnkd': (('p', 'q', 'dir', 'lnkd'), ('p', 'q', 'out')),
     'back': (('p', 'q', 'out', 'back'), ('p', 'q', 'dir')),
     'lnkx': (('p', 'q', 'dir', 'lnk.tex'), ('p', 'q', 'out', 'secret.tex')),
+    'lnkl': (('p', 'q', 'dir', 'lnk2.latex'), ('p', 'q', 'out', 'secret.tex')),
 }
 ALWAYS_FILE = ('p', 'q', 'dir', 'sub', 'deep.tex')
 MARK2PATH = {marker(p): list(p) for p in list(FILES.values()) + [ALWAYS_FILE]}
@@ -191,8 +192,8 @@ def _jobs(scratch, toggles, fixed, comps, maxcomps, bases, allowabs, variant, sh
 
 def run(ctx):
     quick = ctx.tier == 'quick'
-    ctx.rule = ('TLC enumerates layouts (subsets of 9 optional entries: inside files with/without extension, sibling-'
-                'prefix directory, outside file, file/dir symlinks in both directions, link existing only as name.tex) x '
+    ctx.rule = ('TLC enumerates layouts (subsets of 10 optional entries: inside files with/without extension, sibling-'
+                'prefix directory, outside file, file/dir symlinks in both directions, links existing only as name.tex / name.latex) x '
                 'base given directly or through a symlink x requests of <= MaxComps components (19 names incl. "..", ".", '
                 'link names), relative and absolute; each is executed on real directories. Non-trivial: request uses '
                 '"..", is absolute, or resolves to a file.')
@@ -206,8 +207,8 @@ def run(ctx):
         ctx.control('as_implemented resolution violates NeverOutside', r.violated == 'NeverOutside', str(r.violated))
         # main run
         if quick:
-            t2 = [t for t in OPTIONAL if t not in ('g', 'inl')]
-            jobs = _jobs(scratch, t2, ['g', 'inl'], COMPS_ALL, 2, ["dir", "dlink"], True, 'intended',
+            t2 = [t for t in OPTIONAL if t not in ('g', 'inl', 'lnkl')]
+            jobs = _jobs(scratch, t2, ['g', 'inl', 'lnkl'], COMPS_ALL, 2, ["dir", "dlink"], True, 'intended',
                          ["in", "lnkx", "sib", "sec"], 900)
         else:
             jobs = _jobs(scratch, OPTIONAL, [], COMPS_ALL, 2, ["dir", "dlink"], True, 'intended',
@@ -217,8 +218,8 @@ def run(ctx):
         ctx.log('<=2 components: %d (layout, base, request) cases; verdicts %s' % (
             m['n'], {k: v for k, v in m['counters'].items() if k in ('same', 'drift', 'outside', 'inside-not-read')}))
         # three-component requests on the richest layouts
-        comps3 = ["in", "g", "sub", "..", ".", "dir", "dir2", "sib", "out", "secret", "lnkf", "lnkd", "back", "lnk", "dlink"] \
-            if not quick else ["in", "sub", "..", "dir2", "sib", "out", "secret", "lnkd", "back", "lnk"]
+        comps3 = ["in", "g", "sub", "..", ".", "dir", "dir2", "sib", "out", "secret", "lnkf", "lnkd", "back", "lnk", "dlink", "lnk2"] \
+            if not quick else ["in", "sub", "..", "dir2", "sib", "out", "secret", "lnkd", "back", "lnk", "lnk2"]
         togg3 = ["in", "lnkx", "lnkd", "back"] if quick else ["in", "inl", "lnkx", "lnkd", "back", "lnkf"]
         fixed3 = [t for t in OPTIONAL if t not in togg3]
         jobs3 = _jobs(scratch, togg3, fixed3, comps3, 3, ["dir", "dlink"], not quick, 'intended',
